@@ -58,6 +58,9 @@ def run_versions_verus():
     loc = Locator(open(path).read(), path)
     r = {'path': path, 'log': sp.log, 'status': st, 'inconclusive': why if st == 'inconclusive' else None, 'failures': [],
          'functions': verus_functions(res), 'verus_s': res['wall_s']}
+    if fails:
+        from .common import confirm_failures_in_isolation
+        fails, dropped, notes = confirm_failures_in_isolation(path, res, fails)
     for f in fails:
         name, pick, clause = loc.name_failure(f)
         r['failures'].append({'obligation': name, 'fn': pick[1], 'kind': f['kind'], 'verifier_output': f['text']})
